@@ -449,6 +449,22 @@ class AlgDomain(EventsMixin, Domain):
       return Vec(a.sx.pow(2), a.orient)
     return UNKNOWN
 
+  # ufunc spellings of the arithmetic operators
+  def x_numpy_negative(self, args, kwargs, node, st):
+    if len(args) == 1 and not kwargs:
+      return self.unop(ast.USub(), args[0], node, st)
+    return UNKNOWN
+
+  def x_numpy_subtract(self, args, kwargs, node, st):
+    if len(args) == 2 and not kwargs:
+      return self.binop(ast.Sub(), args[0], args[1], node, st)
+    return UNKNOWN
+
+  def x_numpy_add(self, args, kwargs, node, st):
+    if len(args) == 2 and not kwargs:
+      return self.binop(ast.Add(), args[0], args[1], node, st)
+    return UNKNOWN
+
   def x_numpy_multiply(self, args, kwargs, node, st):
     if len(args) == 2:
       return self._mul(args[0].d, args[1].d)
